@@ -4,6 +4,7 @@
 //! Real OS threads, one baton, every scheduling decision drawn from a seeded PRNG and
 //! recorded, virtual discrete-event clock. See /verif/DESIGN.md section 3.
 
+pub mod arc_obs;
 pub mod atomic;
 pub mod collections;
 pub mod exec;
